@@ -54,11 +54,22 @@ def build(table):
 
         def res(ch):
             return ch[1] if ch[0] == 'v' else objs[ch[1]]
-        if n.get('wide'):
+        if n.get('wide') and n.get('collide'):
+            # equal frozensets built in different orders from ints that collide in the hash table: equal, same
+            # members, not necessarily the same iteration order
+            vals = [(j + 1) << 20 for j in range(n['wide'])]
+            objs[i] = frozenset(reversed(vals) if n.get('rev') else vals)
+        elif n.get('wide'):
             # a wide, flat container of scalars (bulk code paths)
             w = n['wide']
             objs[i] = list(range(w)) if t == 'list' else set(range(w)) if t == 'set' else \
                 dict(('k%d' % j, j) for j in range(w))
+        elif t in ('clist', 'hlist'):
+            objs[i] = SUBCLASSES[t]([res(ch) if (ch[0] == 'v' or ch[1] < i) else None for ch in n['c']])
+        elif t == 'tdict':
+            objs[i] = TrackingDict()
+            for k, ch in n['c']:
+                objs[i][k] = res(ch) if (ch[0] == 'v' or ch[1] < i) else None
         elif t == 'list':
             objs[i] = [res(ch) if (ch[0] == 'v' or ch[1] < i) else None for ch in n['c']]
         elif t == 'dict':
@@ -72,23 +83,72 @@ def build(table):
         elif t == 'frozenset':
             objs[i] = frozenset(res(ch) for ch in n['c'])
     for i, n in enumerate(table):     # second pass: back-edges
-        if n['t'] == 'list':
+        if n['t'] in ('list', 'clist', 'hlist'):
             for j, ch in enumerate(n['c']):
                 if ch[0] == 'n' and ch[1] >= i:
                     objs[i][j] = objs[ch[1]]
-        elif n['t'] == 'dict':
+        elif n['t'] in ('dict', 'tdict'):
             for k, ch in n['c']:
                 if ch[0] == 'n' and ch[1] >= i:
-                    objs[i][k] = objs[ch[1]]
+                    dict.__setitem__(objs[i], k, objs[ch[1]])
     return objs
+
+
+class TrackingDict(dict):
+    """A dict subclass with bookkeeping of its own (insertion log), like ordered/indexed/two-way dict classes."""
+
+    def __init__(self, *a, **kw):
+        self.side = []
+        dict.__init__(self)
+        for k, v in dict(*a, **kw).items():
+            self[k] = v
+
+    def __setitem__(self, k, v):
+        self.side.append(k)
+        dict.__setitem__(self, k, v)
+
+    def clear(self):
+        del self.side[:]
+        dict.clear(self)
+
+
+class CountingList(list):
+    """A list subclass with bookkeeping of its own."""
+
+    def __init__(self, it=()):
+        self.side = []
+        list.__init__(self)
+        for x in it:
+            self.append(x)
+
+    def append(self, x):
+        self.side.append('a')
+        list.append(self, x)
+
+    def extend(self, it):
+        for x in it:
+            self.append(x)
+
+    def clear(self):
+        del self.side[:]
+        list.clear(self)
+
+
+class HList(list):
+    """A list subclass that is hashable by identity (graph nodes, records): legal inside tuples, sets, frozensets."""
+    __hash__ = object.__hash__
+
+
+SUBCLASSES = {'tdict': TrackingDict, 'clist': CountingList, 'hlist': HList}
 
 
 def is_container(x):
     return isinstance(x, (dict, list, tuple, set, frozenset))
 
 
-def fingerprint(root):
-    """Structure + sharing pattern.  Containers numbered in first-visit order; revisits are ('ref', n)."""
+def fingerprint(root, with_side=False):
+    """Structure + sharing pattern.  Containers numbered in first-visit order; revisits are ('ref', n).
+    with_side: also the private bookkeeping of the container subclasses (only to see that the INPUT is left alone)."""
     seen = {}
     sys.setrecursionlimit(10000)
 
@@ -99,10 +159,11 @@ def fingerprint(root):
             return ('ref', seen[id(x)])
         seen[id(x)] = len(seen)
         me = seen[id(x)]
+        side = ('side', tuple(map(repr, x.side))) if (with_side and hasattr(x, 'side')) else ()
         if isinstance(x, dict):
-            return ('dict', me, tuple((fp(k), fp(v)) for k, v in x.items()))
+            return (type(x).__name__, me, tuple((fp(k), fp(v)) for k, v in x.items())) + side
         if isinstance(x, (list, tuple)):
-            return (type(x).__name__, me, tuple(fp(v) for v in x))
+            return (type(x).__name__, me, tuple(fp(v) for v in x)) + side
         # sets: order-insensitive, but numbering must be deterministic: sort by a sharing-free repr first
         items = sorted(x, key=lambda e: repr(plain(e)))
         return (type(x).__name__, me, tuple(fp(v) for v in items))
@@ -154,7 +215,7 @@ def cycle_through_tuple(root):
         nodes.append(x)
         stack.extend(x.values() if isinstance(x, dict) else x)
     for t in nodes:
-        if not isinstance(t, tuple):
+        if not isinstance(t, (tuple, frozenset)):      # immutable: can only be built once its items exist
             continue
         seen2, stack = set(), list(t)
         while stack:
@@ -291,6 +352,7 @@ def check(c, st):
                 return True
     st.monitor_evals += 1
     before = fingerprint(root)
+    before_side = fingerprint(root, with_side=True)
     cyc = has_cycle(root)
     weak = cyc and cycle_through_tuple(root)
     try:
@@ -306,8 +368,12 @@ def check(c, st):
     except Exception as e:
         got = ('exc', type(e).__name__)
     after = fingerprint(root)
+    after_side = fingerprint(root, with_side=True)
     tag = ('cyclic' if cyc else 'shared' if 'ref' in repr(before) else 'tree') + \
         (':default' if visit is None else ':visit')
+    if after == before and after_side != before_side:
+        return ('input-mutated:bookkeeping-of-a-container-subclass:' + tag, 'remap changed the private state of a dict/list '
+                'subclass instance in its input: %r -> %r' % (before_side, after_side))
     if after != before:
         return ('input-mutated:' + tag, 'remap changed its input: %r -> %r (case %r)' % (before, after, c))
     if weak:
@@ -386,9 +452,14 @@ def gen_table(r, maxnodes, maxdepth):
     for i in range(n):
         t = r.choices(CONTAINERS, [4, 4, 3, 1, 1])[0]
         if i < nwide:
-            t = r.choice(['list', 'dict', 'set'])
-            table.append({'t': t, 'c': [], 'wide': r.choice([63, 64, 65, 100, 300])})
-            meta.append((False, 1))
+            t = r.choice(['list', 'dict', 'set', 'frozenset', 'frozenset'])
+            nd = {'t': t, 'c': [], 'wide': r.choice([63, 64, 65, 100, 300])}
+            if t == 'frozenset':
+                nd['collide'] = True
+                nd['rev'] = bool(i % 2)
+                nd['wide'] = r.choice([64, 70, 100]) if i == 0 else table[0].get('wide', 70) if table[0].get('collide') else nd['wide']
+            table.append(nd)
+            meta.append((t == 'frozenset', 1))
             continue
         need_hashable = t in ('set', 'frozenset')
         k = r.choice([0, 0, 1, 2, 2, 3, 4, 5])
@@ -406,8 +477,12 @@ def gen_table(r, maxnodes, maxdepth):
         if t == 'dict':
             ks = r.sample(KEYS, min(len(children), len(KEYS)))
             children = [[kk, ch] for kk, ch in zip(ks, children)]
+            if r.random() < 0.12:
+                t = 'tdict'         # a dict subclass with bookkeeping of its own
+        elif t == 'list' and r.random() < 0.2:
+            t = r.choice(['clist', 'hlist'])
         table.append({'t': t, 'c': children})
-        meta.append((hashable if t in ('tuple', 'frozenset') else False, depth))
+        meta.append((hashable if t in ('tuple', 'frozenset') else (t == 'hlist'), depth))
     # back-edges into mutable containers
     if r.random() < 0.35:
         for _ in range(r.randint(1, 2)):
